@@ -1,6 +1,7 @@
 from tlexport.quic.quic_frame import CryptoFrame
 from tlexport.quic.quic_packet import QuicPacketType
 from tlexport.quic.quic_decode import get_variable_length_int_length, decode_variable_length_int
+from tlexport import _verif
 
 # the Quic Session shall create only one Quic TLS Session at a time,
 # when a new Quic Session is registered the Quic TLS Session must be discarded
@@ -22,6 +23,7 @@ class QuicTlsSession:
         self.server_buffer = {QuicPacketType.INITIAL: b"", QuicPacketType.RTT_O: b"", QuicPacketType.RTT_1: b"", QuicPacketType.HANDSHAKE: b""}
         self.client_buffer = {QuicPacketType.INITIAL: b"", QuicPacketType.RTT_O: b"", QuicPacketType.RTT_1: b"", QuicPacketType.HANDSHAKE: b""}
 
+    @_verif.traced("qcrypto", None, _verif.crypto_after)
     def update_session(self, frame: CryptoFrame):
         if frame.src_packet.isserver:
             self.server_frame_buffer[frame.src_packet.packet_type].append(frame)
